@@ -287,6 +287,13 @@ func Main(spec *Spec, tier string) int {
 			}
 		}
 	}
+	// the largest scenarios (tuning aid and part of the coverage statement)
+	big := append([]scenResult{}, results...)
+	sort.Slice(big, func(i, j int) bool { return big[i].Executions > big[j].Executions })
+	var largest []string
+	for i := 0; i < len(big) && i < 8; i++ {
+		largest = append(largest, fmt.Sprintf("%d executions / %d states: %s", big[i].Executions, big[i].States, big[i].Name))
+	}
 	known := fs.Report(spec.ID)
 	ev.KnownFindings = known
 	ev.Violations = violations
@@ -319,6 +326,7 @@ func Main(spec *Spec, tier string) int {
 		"distinct_outcomes":             len(tot.Outcomes),
 		"outcomes":                      outs,
 		"caps_hit":                      capped,
+		"largest_scenarios":             largest,
 		"explanation":                   "every trace is an execution of the rewritten /repo sources under the vrt scheduler; no abstract model is involved",
 	}
 	if err := ev.Write(start); err != nil {
